@@ -1,6 +1,7 @@
 package main
 
 import (
+	"go/token"
 	"fmt"
 	"go/types"
 	"os"
@@ -23,7 +24,7 @@ func (r *Run) mapHeaps(st *State, mt *types.Map) mapInfo {
 	ks, vs := e.sorts.sortOf(mt.Key()), e.sorts.sortOf(mt.Elem())
 	base := shortTypeName(mt.Key()) + "__" + shortTypeName(mt.Elem())
 	mi := mapInfo{ksort: ks, vsort: vs}
-	mi.mName = e.regHeap("M_"+base, fmt.Sprintf("(Array Int (Array %s %s))", ks, vs), nil)
+	mi.mName = e.regHeap("M_"+base, fmt.Sprintf("(Array Int (Array %s %s))", ks, vs), mt.Elem())
 	mi.domName = e.regHeap("MD_"+base, fmt.Sprintf("(Array Int (Array %s Bool))", ks), nil)
 	mi.lenName = e.regHeap("ML_"+base, "(Array Int Int)", types.Typ[types.Int])
 	if st != nil {
@@ -189,6 +190,16 @@ func (fr *Frame) call(st *State, in ssa.Instruction, c *ssa.CallCommon, v ssa.Va
 	}
 	args = fr.argVals(st, c)
 	if fn == nil {
+		// a call through a package variable that is initialised with a function and never assigned again
+		if u, ok := c.Value.(*ssa.UnOp); ok && u.Op == token.MUL {
+			if g, ok := u.X.(*ssa.Global); ok {
+				if gf := r.eng.globalFactOf(g); gf.immutable && gf.funcInit != nil {
+					fn = gf.funcInit
+				}
+			}
+		}
+	}
+	if fn == nil {
 		// dynamic call through a named function type that carries a contract
 		if nt, ok := c.Value.Type().(*types.Named); ok && nt.Obj().Pkg() != nil {
 			if sp := r.eng.specs.Funcs["functype "+nt.Obj().Pkg().Path()+"."+nt.Obj().Name()]; sp != nil {
@@ -284,7 +295,11 @@ func (fr *Frame) canInline(fn *ssa.Function) bool {
 	if force {
 		return true
 	}
-	if fn.Pkg == nil || !fr.run.eng.inModule(fn.Pkg.Pkg.Path()) {
+	fpkg := fn.Pkg
+	if fpkg == nil && fn.Origin() != nil {
+		fpkg = fn.Origin().Pkg // an instance of a generic function belongs to the package of the generic
+	}
+	if fpkg == nil || !fr.run.eng.inModule(fpkg.Pkg.Path()) {
 		// outside the module: only trivially small leaf functions
 		if !fr.run.eng.inlineExternal(fn) {
 			return false
@@ -799,6 +814,11 @@ func (fr *Frame) copyOp(st *State, c *ssa.CallCommon) Val {
 	it := types.Typ[types.Int]
 	dt := c.Args[0].Type()
 	if s.keyMode && isByteSlice(dt) {
+		// clone idiom: x := make([]byte, len(y)); copy(x, y) - x is a fresh, so far unconstrained key; from here on it is y.
+		// Also with x a field: o.f = make([]byte, len(y)); copy(o.f, y).
+		if mk := clonedMake(c); mk != nil {
+			r.assume(st, eq(fr.tv(st, mk).S, fr.tv(st, c.Args[1]).S))
+		}
 		return r.freshOf(st, "copyn", it)
 	}
 	et := dt.Underlying().(*types.Slice).Elem()
@@ -904,9 +924,12 @@ func (fr *Frame) deferredCall(st *State, d deferEntry) {
 		fr.inlineCall(st, fn, cl, d.args)
 		return
 	}
-	// havoc: mod-set plus captured cells
-	for _, b := range cl.binds {
+	// havoc: mod-set plus the captured cells the closure may write (directly, or by handing their address on)
+	for i, b := range cl.binds {
 		if ad, ok := b.(*Addr); ok && ad.kind == aCell {
+			if i < len(fn.FreeVars) && !freeVarMayBeWritten(fn.FreeVars[i]) {
+				continue
+			}
 			r.store(st, ad, r.freshOf(st, "dfc", ad.typ))
 		}
 	}
@@ -1311,4 +1334,132 @@ func (fr *Frame) iterateCall(st *State, fn *ssa.Function, c *ssa.CallCommon, arg
 	}
 	r.assumed["iteration schema for "+fn.String()+" (calls its function argument any number of times, nothing else)"] = true
 	return fr.freshResults(st, c.Signature(), "r_"+name), true
+}
+
+// clonedMake recognises the clone idiom at a copy(dst, src) of byte slices and returns the MakeSlice that made dst:
+// dst is the made value itself, or a load of the location it was stored to just before (same block, nothing but address
+// computations, loads and len() in between), and it was made with length len(src).
+func clonedMake(c *ssa.CallCommon) *ssa.MakeSlice {
+	if len(c.Args) != 2 || !isByteSlice(c.Args[1].Type()) {
+		return nil
+	}
+	lenOfSrc := func(mk *ssa.MakeSlice) bool {
+		ln, ok := mk.Len.(*ssa.Call)
+		if !ok {
+			return false
+		}
+		b, ok := ln.Call.Value.(*ssa.Builtin)
+		return ok && b.Name() == "len" && ln.Call.Args[0] == c.Args[1]
+	}
+	if mk, ok := c.Args[0].(*ssa.MakeSlice); ok {
+		if lenOfSrc(mk) && cloneOnly(mk) {
+			return mk
+		}
+		return nil
+	}
+	ld, ok := c.Args[0].(*ssa.UnOp)
+	if !ok || ld.Op != token.MUL {
+		return nil
+	}
+	// walk back from the load to the store of a MakeSlice into the same location
+	blk := ld.Block()
+	pos := -1
+	for i, in := range blk.Instrs {
+		if in == ssa.Instruction(ld) {
+			pos = i
+		}
+	}
+	for i := pos - 1; i >= 0; i-- {
+		switch x := blk.Instrs[i].(type) {
+		case *ssa.FieldAddr, *ssa.DebugRef, *ssa.IndexAddr:
+		case *ssa.UnOp:
+			if x.Op != token.MUL {
+				return nil
+			}
+		case *ssa.Call:
+			b, ok := x.Call.Value.(*ssa.Builtin)
+			if !ok || b.Name() != "len" {
+				return nil
+			}
+		case *ssa.Store:
+			mk, ok := x.Val.(*ssa.MakeSlice)
+			if !ok || !sameAddrExpr(x.Addr, ld.X, 0) || !lenOfSrc(mk) {
+				return nil
+			}
+			// the made slice is used for nothing but this store
+			for _, ref := range *mk.Referrers() {
+				switch ref.(type) {
+				case *ssa.DebugRef:
+				case *ssa.Store:
+					if ref != ssa.Instruction(x) {
+						return nil
+					}
+				default:
+					return nil
+				}
+			}
+			return mk
+		default:
+			return nil
+		}
+	}
+	return nil
+}
+
+// sameAddrExpr: two SSA address expressions built the same way from the same roots (no stores in between is the caller's business).
+func sameAddrExpr(a, b ssa.Value, depth int) bool {
+	if a == b {
+		return true
+	}
+	if depth > 8 {
+		return false
+	}
+	switch x := a.(type) {
+	case *ssa.FieldAddr:
+		y, ok := b.(*ssa.FieldAddr)
+		return ok && x.Field == y.Field && sameAddrExpr(x.X, y.X, depth+1)
+	case *ssa.UnOp:
+		y, ok := b.(*ssa.UnOp)
+		return ok && x.Op == token.MUL && y.Op == token.MUL && sameAddrExpr(x.X, y.X, depth+1)
+	}
+	return false
+}
+
+// cloneOnly: the made slice is only stored somewhere and filled by one copy in the block that makes it.
+func cloneOnly(mk *ssa.MakeSlice) bool {
+	copies := 0
+	for _, ref := range *mk.Referrers() {
+		switch x := ref.(type) {
+		case *ssa.Store:
+			if x.Val != mk {
+				return false
+			}
+		case *ssa.DebugRef:
+		case *ssa.Call:
+			b, ok := x.Call.Value.(*ssa.Builtin)
+			if !ok || b.Name() != "copy" || x.Call.Args[0] != mk || x.Block() != mk.Block() {
+				return false
+			}
+			copies++
+		default:
+			return false
+		}
+	}
+	return copies == 1
+}
+
+// freeVarMayBeWritten: the closure stores through the captured variable or lets its address escape.
+func freeVarMayBeWritten(fv *ssa.FreeVar) bool {
+	for _, ref := range *fv.Referrers() {
+		switch x := ref.(type) {
+		case *ssa.UnOp, *ssa.DebugRef:
+		case *ssa.Store:
+			if x.Addr == fv || x.Val == fv {
+				return true
+			}
+		default:
+			return true
+		}
+	}
+	return false
 }
